@@ -387,7 +387,7 @@ pub fn worker(w: &mut Worker) {
                 let body0 = base.main;
                 let npos = positions(&body0);
                 let mut rets: Vec<Option<Stmt>> = vec![None];
-                for v in [Some("r1".to_string()), None, Some("r 2".to_string())] {
+                for v in [Some("r1".to_string()), None, Some("r 2".to_string()), Some(String::new())] {
                     rets.push(Some(Stmt::Return(v)));
                 }
                 for ret in &rets {
@@ -493,7 +493,7 @@ pub fn worker(w: &mut Worker) {
     // had no value in the output variable before (the corner the property leaves open is a
     // pre-existing one)
     {
-        let endings: Vec<Vec<Stmt>> = vec![vec![], vec![Stmt::Return(None)], vec![Stmt::Return(Some("r1".into()))], vec![Stmt::Return(Some("x".into()))]];
+        let endings: Vec<Vec<Stmt>> = vec![vec![], vec![Stmt::Return(None)], vec![Stmt::Return(Some("r1".into()))], vec![Stmt::Return(Some("x".into()))], vec![Stmt::Return(Some(String::new()))]];
         let seqs4: Vec<Vec<CallForm>> = vec![
             vec![CallForm::Assign],
             vec![CallForm::Assign, CallForm::Assign],
